@@ -1,7 +1,7 @@
 (* Cursor invariants of the lexer model: line / col / tcol are functions of the consumed text. *)
 From Coq Require Import List NArith ZArith Bool Lia.
 Import ListNotations.
-From GY Require Import Model.Lex Model.Parse Spec.C16.
+From GY Require Import Model.Lex Model.Parse Spec.C16 Spec.C02.
 Local Open Scope Z_scope.
 
 (* the exact counters for a reversed consumed prefix *)
@@ -614,4 +614,1017 @@ Proof.
   apply orb_false_iff in Hnb. destruct Hnb as [Hnb B4]. apply orb_false_iff in Hnb. destruct Hnb as [Hnb B3].
   apply orb_false_iff in Hnb. destruct Hnb as [B1 B2].
   rewrite E1a, E1b, E1c, E2, E3, B1, B2, B3, B4. apply N.eqb_neq in E0. rewrite E0. reflexivity.
+Qed.
+
+(* ================================================================ C02: the lexer reads what the reference reader reads *)
+
+(* ---- the cursor moves, with the remaining text made explicit ---- *)
+Fixpoint dropb (s : str) : str := match s with c :: r => if is_blank c then dropb r else s | [] => [] end.
+
+Lemma blank_is_blank c : blank c = is_blank c.
+Proof. reflexivity. Qed.
+
+Lemma acceptRun_after text fuel : forall k, live text k -> (length (after k) < fuel)%nat ->
+  after (acceptRun fuel k) = dropb (after k).
+Proof.
+  induction fuel as [|f IH]; intros k [Z I] Hf; [lia|]. cbn [acceptRun].
+  destruct (after k) as [|c r] eqn:Ha.
+  - rewrite (next_eof k Ha). change (is_blank EOFR) with false. cbv iota.
+    unfold backup. cbn [set_width width after]. rewrite Ha. reflexivity.
+  - rewrite (next_cons k c r Ha). cbn [dropb]. destruct (is_blank c) eqn:Hb.
+    + destruct (advance_fields c r k 1 Ha) as (_ & Fa & _).
+      rewrite IH; [rewrite Fa; reflexivity| |rewrite Fa; cbn [length] in Hf; lia].
+      apply advance_live with (r := r); [exact Ha|split; assumption].
+    + destruct (backup_advance k c r Ha I) as ((_ & Sa & _) & _). rewrite Sa, Ha. reflexivity.
+Qed.
+
+Lemma updateCursor_go_tokrev n : forall k, (n <= length (after k))%nat ->
+  tokrev (updateCursor_go n k) = rev (firstn n (after k)) ++ tokrev k.
+Proof.
+  induction n as [|n IH]; intros k Hn; cbn [updateCursor_go]; [reflexivity|].
+  destruct (after k) as [|c r] eqn:Ha; [cbn in Hn; lia|].
+  destruct (advance_fields c r k 0 Ha) as (_ & Fa & Ft & _).
+  rewrite IH by (rewrite Fa; cbn [length] in Hn; lia). rewrite Fa, Ft. cbn [firstn rev]. rewrite <- app_assoc. reflexivity.
+Qed.
+
+(* strings.Index for one rune, as a split *)
+Lemma index1_split c s x : index1 c s = Some x ->
+  exists p r, s = p ++ c :: r /\ length p = x /\ index1 c p = None.
+Proof.
+  revert x. induction s as [|y s IH]; intros x H; cbn [index1] in H; [discriminate|].
+  destruct (N.eqb_spec y c) as [->|Hn].
+  - injection H as <-. exists [], s. auto.
+  - destruct (index1 c s) as [x'|] eqn:E; [|discriminate]. cbn [option_map] in H. injection H as <-.
+    destruct (IH x' eq_refl) as (p & r & -> & Hl & Hp). exists (y :: p), r. split; [reflexivity|]. split; [cbn; lia|].
+    cbn [index1]. destruct (N.eqb_spec y c); [contradiction|]. rewrite Hp. reflexivity.
+Qed.
+Lemma index1_none_app c p r : index1 c p = None -> index1 c (p ++ c :: r) = Some (length p).
+Proof.
+  induction p as [|y p IH]; cbn [index1 app length]; intro H; [rewrite N.eqb_refl; reflexivity|].
+  destruct (y =? c)%N; [discriminate|]. destruct (index1 c p); [discriminate|]. rewrite IH by reflexivity. reflexivity.
+Qed.
+
+Lemma skipTo1_found text c k p r : live text k -> after k = p ++ c :: r -> index1 c p = None ->
+  exists k', skipTo1 c k = (true, k') /\ live text k' /\ after k' = c :: r /\ tokrev k' = rev p ++ tokrev k.
+Proof.
+  intros L Ha Hp. unfold skipTo1. rewrite Ha, (index1_none_app c p r Hp). eexists. split; [reflexivity|].
+  assert (Hle : (length p <= length (after k))%nat) by (rewrite Ha, app_length; lia).
+  destruct (updateCursor_go_spec text (length p) k L Hle) as (A & _ & _ & D).
+  split; [apply set_width_live; exact A|]. unfold updateCursor. cbn [set_width after tokrev].
+  rewrite D, (updateCursor_go_tokrev _ _ Hle), Ha.
+  rewrite skipn_app, skipn_all, Nat.sub_diag, firstn_app, Nat.sub_diag, firstn_all. cbn [skipn firstn app].
+  rewrite app_nil_r. auto.
+Qed.
+Lemma skipTo1_notfound c k : index1 c (after k) = None -> skipTo1 c k = (false, k).
+Proof. intro H. unfold skipTo1. rewrite H. reflexivity. Qed.
+
+(* strings.Index for two runes *)
+Fixpoint find2 (c d : rune) (s : str) : option (str * str) :=     (* (before the pair, after the pair) *)
+  match s with
+  | x :: ((y :: r') as r) => if ((x =? c) && (y =? d))%N then Some ([], r')
+                             else match find2 c d r with Some (p, q) => Some (x :: p, q) | None => None end
+  | _ => None
+  end.
+Lemma find2_eq c d x y r : find2 c d (x :: y :: r) =
+  if ((x =? c) && (y =? d))%N then Some ([], r)
+  else match find2 c d (y :: r) with Some (p, q) => Some (x :: p, q) | None => None end.
+Proof. reflexivity. Qed.
+Lemma index2_find2 c d s : 
+  match find2 c d s with
+  | Some (p, q) => index2 c d s = Some (length p) /\ s = p ++ c :: d :: q
+  | None => index2 c d s = None
+  end.
+Proof.
+  induction s as [|x s IH]; [reflexivity|]. destruct s as [|y r]; [reflexivity|].
+  rewrite find2_eq, index2_eq. destruct ((x =? c) && (y =? d))%N eqn:E.
+  - apply andb_true_iff in E. destruct E as [E1 E2]. apply N.eqb_eq in E1, E2. subst. split; reflexivity.
+  - destruct (find2 c d (y :: r)) as [[p q]|].
+    + destruct IH as [-> ->]. split; reflexivity.
+    + rewrite IH. reflexivity.
+Qed.
+
+Lemma skipTo2_found text c d k p q : live text k -> find2 c d (after k) = Some (p, q) ->
+  exists k', skipTo2 c d k = (true, k') /\ live text k' /\ after k' = c :: d :: q.
+Proof.
+  intros L H. pose proof (index2_find2 c d (after k)) as F. rewrite H in F. destruct F as [Hi Ha].
+  unfold skipTo2. rewrite Hi. eexists. split; [reflexivity|].
+  assert (Hle : (length p <= length (after k))%nat) by (rewrite Ha, app_length; lia).
+  destruct (updateCursor_go_spec text (length p) k L Hle) as (A & _ & _ & D).
+  split; [apply set_width_live; exact A|]. unfold updateCursor. cbn [set_width after].
+  rewrite D. rewrite Ha at 1. rewrite skipn_app, skipn_all, Nat.sub_diag. reflexivity.
+Qed.
+Lemma skipTo2_notfound c d k : find2 c d (after k) = None -> skipTo2 c d k = (false, k).
+Proof.
+  intro H. pose proof (index2_find2 c d (after k)) as F. rewrite H in F. unfold skipTo2. rewrite F. reflexivity.
+Qed.
+
+(* ---- the reference reader's gap skipping, in terms of the same searches ---- *)
+Lemma skip_dropb s : skip InGap s = skip InGap (dropb s).
+Proof.
+  induction s as [|c r IH]; [reflexivity|]. cbn [skip dropb]. rewrite blank_is_blank. destruct (is_blank c) eqn:E; [exact IH|].
+  cbn [skip]. rewrite blank_is_blank, E. reflexivity.
+Qed.
+
+Lemma skip_line s : skip InLineComment s =
+  match index1 cLF s with Some x => skip InGap (skipn x s) | None => Some [] end.
+Proof.
+  induction s as [|c r IH]; [reflexivity|]. cbn [skip index1]. destruct (c =? cLF)%N eqn:E.
+  - cbn [skipn]. apply N.eqb_eq in E. subst c. reflexivity.
+  - rewrite IH. destruct (index1 cLF r); reflexivity.
+Qed.
+
+Lemma skip_block_eq c d r : skip InBlockComment (c :: d :: r) =
+  if (c =? cSTAR)%N then (if (d =? cSLASH)%N then skip InGap r else skip InBlockComment (d :: r))
+  else skip InBlockComment (d :: r).
+Proof. reflexivity. Qed.
+Lemma skip_block s : skip InBlockComment s =
+  match find2 cSTAR cSLASH s with Some (_, q) => skip InGap q | None => None end.
+Proof.
+  induction s as [|c r IH]; [reflexivity|]. destruct r as [|d r'].
+  - cbn. destruct (c =? cSTAR)%N; reflexivity.
+  - rewrite find2_eq, skip_block_eq. destruct (c =? cSTAR)%N eqn:E1; cbn [andb].
+    + destruct (d =? cSLASH)%N eqn:E2; [reflexivity|]. rewrite IH. destruct (find2 cSTAR cSLASH (d :: r')) as [[p q]|]; reflexivity.
+    + rewrite IH. destruct (find2 cSTAR cSLASH (d :: r')) as [[p q]|]; reflexivity.
+Qed.
+
+(* ---- one run of lexGround, case by case on what the remaining text starts with ---- *)
+Definition glex (text : str) (l : lexer) (s : str) : Prop :=
+  state l = SGround /\ items l = [] /\ live text (cu l) /\ after (cu l) = s.
+Definition tokq (c : tcode) (u : str) (t : token) : Prop := t_code t = c /\ t_text t = u.
+Definition same_errs (l l' : lexer) : Prop :=
+  errs l' = errs l /\ errcnt l' = errcnt l /\ inPattern l' = inPattern l.
+(* the lexer stopped with a new error *)
+Definition failed (l l' : lexer) : Prop :=
+  state l' = SDone /\ inPattern l' = inPattern l /\ (errcnt l = O -> errs l' <> [] /\ errcnt l' = 1%nat).
+
+Definition one_tok (text : str) (l l' : lexer) (c : tcode) (u : str) (s' : str) : Prop :=
+  same_errs l l' /\ state l' = SGround /\ (exists t, items l' = [t] /\ tokq c u t) /\
+  live text (cu l') /\ after (cu l') = s'.
+Definition no_tok (text : str) (l l' : lexer) (s' : str) : Prop :=
+  same_errs l l' /\ state l' = SGround /\ items l' = [] /\ live text (cu l') /\ after (cu l') = s'.
+Definition in_unq (text : str) (l l' : lexer) (p : str) (s' : str) : Prop :=
+  same_errs l l' /\ state l' = SUnquoted /\ items l' = [] /\ live text (cu l') /\ after (cu l') = s' /\
+  tokrev (cu l') = p.
+Definition in_dq (text : str) (l l' : lexer) (s : str) (s' : str) : Prop :=
+  same_errs l l' /\ state l' = SQString /\ items l' = [] /\ zip text (cu l') /\ Exact (cu l') /\
+  after (cu l') = s' /\ tcol (cu l') = column_of text s + 1.
+
+Lemma emit_one (text : str) l c st : items l = [] ->
+  exists t, items (with_state (emit l c) st) = [t] /\ tokq c (rev (tokrev (cu l))) t.
+Proof. intro H. unfold emit, emitText. cbn [with_state items]. rewrite H. cbn. eexists. split; [reflexivity|split; reflexivity]. Qed.
+Lemma emitText_one l c u st : items l = [] ->
+  exists t, items (with_state (emitText l c u) st) = [t] /\ tokq c u t.
+Proof. intro H. unfold emitText. cbn [with_state items]. rewrite H. cbn. eexists. split; [reflexivity|split; reflexivity]. Qed.
+
+Lemma ErrorfAt_failed l0 l ln cl kind subj : errcnt l = errcnt l0 -> inPattern l = inPattern l0 ->
+  failed l0 (with_state (ErrorfAt l ln cl kind subj) SDone).
+Proof.
+  intros Hc Hp. split; [reflexivity|]. unfold ErrorfAt. change (errcnt (emit l TError)) with (errcnt l).
+  destruct (Nat.eqb_spec (errcnt l) maxErrors) as [E|N1]; [|destruct (Nat.eqb_spec (errcnt l) (S maxErrors)) as [E|N2]].
+  - split; [exact Hp|]. intro Z. rewrite <- Hc, E in Z. discriminate.
+  - split; [exact Hp|]. intro Z. rewrite <- Hc, E in Z. discriminate.
+  - split; [exact Hp|]. intro Z. cbn [with_state errs errcnt]. rewrite Hc, Z. split; [discriminate|reflexivity].
+Qed.
+
+Lemma column_of_zip text k : zip text k -> column_of text (after k) = xtcol (before k).
+Proof.
+  intro Z. unfold column_of, xtcol. unfold zip in Z. rewrite <- Z at 1 2. rewrite app_length.
+  replace (length (rev (before k)) + length (after k) - length (after k))%nat with (length (rev (before k))) by lia.
+  rewrite firstn_app, Nat.sub_diag, firstn_all. cbn [firstn]. rewrite app_nil_r, rev_involutive. reflexivity.
+Qed.
+
+
+Definition ground_result (text : str) (l l' : lexer) (s1 : str) : Prop :=
+  match s1 with
+  | [] => same_errs l l' /\ state l' = SDone /\ items l' = []
+  | c :: r =>
+    if punct c then one_tok text l l' (TChar c) [c] r
+    else if (c =? cSQ)%N then
+      match squoted r with
+      | Some (u, s') => one_tok text l l' TString u s'
+      | None => failed l l'
+      end
+    else if (c =? cDQ)%N then in_dq text l l' s1 r
+    else if (c =? cSLASH)%N then
+      match r with
+      | d :: r' =>
+        if (d =? cSLASH)%N then
+          match index1 cLF r' with Some x => no_tok text l l' (skipn x r') | None => failed l l' end
+        else if (d =? cSTAR)%N then
+          match find2 cSTAR cSLASH r' with Some (_, q) => no_tok text l l' q | None => failed l l' end
+        else in_unq text l l' [c] r
+      | [] => in_unq text l l' [c] r
+      end
+    else if (c =? cPLUS)%N then
+      match r with
+      | d :: _ => if quote d then one_tok text l l' TUnquoted [c] r else in_unq text l l' [c] r
+      | [] => in_unq text l l' [c] r
+      end
+    else in_unq text l l' [] s1
+  end.
+
+Lemma skipn_S_app {A} (p : list A) c q : skipn (S (length p)) (p ++ c :: q) = q.
+Proof. induction p as [|x p IH]; [reflexivity|exact IH]. Qed.
+
+Lemma squoted_index r : squoted r =
+  match index1 cSQ r with Some x => Some (firstn x r, skipn (S x) r) | None => None end.
+Proof.
+  induction r as [|c r IH]; [reflexivity|]. cbn [squoted index1]. destruct (c =? cSQ)%N; [reflexivity|].
+  rewrite IH. destruct (index1 cSQ r); reflexivity.
+Qed.
+
+Lemma lexGround_sim text l s : ~ In EOFR text -> glex text l s -> ground_result text l (lexGround l) (dropb s).
+Proof.
+  intros NE (Hst & Hit & L & Hs). unfold lexGround. cbv zeta.
+  destruct (acceptRun_spec text (S (length (after (cu l)))) (cu l) L ltac:(lia)) as [La Ea].
+  pose proof (acceptRun_after text (S (length (after (cu l)))) (cu l) L ltac:(lia)) as Aa.
+  set (k := consume (acceptRun (S (length (after (cu l)))) (cu l))).
+  assert (Lk : live text k) by (apply consume_live; exact La).
+  assert (Ek : Exact k) by exact Ea.
+  assert (Tk : tokrev k = []) by reflexivity.
+  assert (Ak : after k = dropb s) by (rewrite <- Hs; exact Aa).
+  set (l0 := Build_lexer k _ _ _ _ _ _ _ _).
+  assert (SE0 : forall k', same_errs l (with_cu l0 k')) by (intro; split; [|split]; reflexivity).
+  destruct (peek k) as [c k1] eqn:Hp.
+  destruct Lk as [Zk Ck].
+  destruct (peek_spec text k c k1 Zk Ck Hp) as (Hc & SP & Zk1 & Ck1 & _ & _ & Hx1).
+  assert (InT : forall x, In x (after k) -> x <> EOFR).
+  { intros x Hx ->. apply NE. unfold zip in Zk. rewrite <- Zk. apply in_or_app. right. exact Hx. }
+  set (l1 := with_cu l0 k1).
+  destruct (dropb s) as [|c0 r] eqn:Hd.
+  { (* end of text *)
+    rewrite Ak in Hc. cbn [hd] in Hc. subst c. change (EOFR =? EOFR)%N with true. cbv iota.
+    split; [apply SE0|]. split; [reflexivity|exact Hit]. }
+  rewrite Ak in Hc. cbn [hd] in Hc. subst c0.
+  assert (E0 : c <> EOFR) by (apply InT; rewrite Ak; left; reflexivity).
+  apply N.eqb_neq in E0. rewrite E0. apply N.eqb_neq in E0.
+  assert (Ha1 : after k1 = c :: r) by (destruct SP as (_ & -> & _); exact Ak).
+  assert (Tk1 : tokrev k1 = []) by (destruct SP as (_ & _ & ->); exact Tk).
+  pose proof (advance_live text c r k1 1 Ha1 (conj Zk1 Ck1)) as L2.
+  pose proof (advance_exact c r k1 1 Ha1 Ck1) as X2.
+  destruct (advance_fields c r k1 1 Ha1) as (Fb2 & Fa2 & Ft2 & _ & _ & _ & Ftc2).
+  rewrite (next_cons k1 c r Ha1).
+  set (k2 := advance c k1 1) in *.
+  unfold ground_result. unfold punct.
+  destruct ((c =? cSEMI) || (c =? cLB) || (c =? cRB))%N eqn:E1.
+  { split; [apply SE0|]. split; [reflexivity|]. split.
+    - destruct (emit_one text (with_cu l1 k2) (TChar c) SGround Hit) as (t & A & B). exists t. split; [exact A|].
+      cbn [with_cu cu] in B. rewrite Ft2, Tk1 in B. exact B.
+    - split; [apply consume_live; exact L2|exact Fa2]. }
+  destruct (c =? cSQ)%N eqn:E2.
+  { apply N.eqb_eq in E2. subst c. rewrite squoted_index.
+    destruct (index1 cSQ r) as [x|] eqn:Hi.
+    - destruct (index1_split _ _ _ Hi) as (p & q & Hr & Hl & Hn).
+      destruct (skipTo1_found text cSQ (consume k2) p q (consume_live _ _ L2)) as (k3 & Hs3 & L3 & A3 & T3);
+        [cbn [consume after]; rewrite Fa2; exact Hr|exact Hn|].
+      rewrite Hs3.
+      destruct (emit_one text (with_cu l1 k3) TString SGround Hit) as (t & A & B).
+      set (l3 := emit (with_cu l1 k3) TString) in *.
+      change (cu l3) with (consume k3).
+      assert (A3' : after (consume k3) = cSQ :: q) by exact A3.
+      rewrite (next_cons (consume k3) cSQ q A3').
+      destruct (advance_fields cSQ q (consume k3) 1 A3') as (_ & Fa4 & _).
+      split; [apply SE0|]. split; [reflexivity|]. split.
+      + exists t. split; [exact A|]. cbn [with_cu cu] in B. rewrite T3 in B. cbn [consume tokrev] in B.
+        rewrite app_nil_r, rev_involutive in B. destruct B as [B1 B2]. split; [exact B1|]. rewrite B2.
+        rewrite Hr, <- Hl. rewrite firstn_app, Nat.sub_diag, firstn_all. cbn [firstn]. symmetry. apply app_nil_r.
+      + split; [apply advance_live with (r := q); [exact A3'|apply consume_live; exact L3]|].
+        cbn [with_state with_cu cu]. rewrite Fa4, Hr, <- Hl.
+        symmetry. apply skipn_S_app.
+    - rewrite skipTo1_notfound by (cbn [consume after]; rewrite Fa2; exact Hi).
+      apply ErrorfAt_failed; reflexivity. }
+  destruct (c =? cDQ)%N eqn:E3.
+  { apply N.eqb_eq in E3. subst c.
+    split; [apply SE0|]. split; [reflexivity|]. split; [exact Hit|]. destruct L2 as [Z2 _].
+    split; [exact Z2|]. split; [exact X2|]. split; [exact Fa2|].
+    cbn [with_state with_cu cu]. destruct X2 as (_ & _ & ->). rewrite Fb2, xtcol_cons.
+    change (cDQ =? cLF)%N with false. change (cDQ =? cTAB)%N with false. cbv iota.
+    rewrite <- Ha1, (column_of_zip text k1 Zk1). reflexivity. }
+  destruct (peek k2) as [c2 k3] eqn:Hp2.
+  destruct L2 as [Z2 C2].
+  destruct (peek_spec text k2 c2 k3 Z2 C2 Hp2) as (Hc2' & SP3 & Zk3 & Ck3 & _).
+  assert (Tk3 : tokrev k3 = [c]) by (destruct SP3 as (_ & _ & ->); rewrite Ft2, Tk1; reflexivity).
+  assert (Ak3 : after k3 = r) by (destruct SP3 as (_ & -> & _); exact Fa2).
+  assert (HUQ : in_unq text l (with_state (with_cu l1 k3) SUnquoted) [c] r).
+  { split; [apply SE0|]. split; [reflexivity|]. split; [exact Hit|]. split; [split; assumption|]. split; assumption. }
+  rewrite Fa2 in Hc2'.
+  destruct (c =? cSLASH)%N eqn:E4.
+  { destruct r as [|d r']; [cbn [hd] in Hc2'; subst c2; exact HUQ|]. cbn [hd] in Hc2'. subst c2.
+    destruct (d =? cSLASH)%N eqn:E5.
+    { destruct (index1 cLF r') as [x|] eqn:Hi.
+      - destruct (index1_split _ _ _ Hi) as (p & q & Hr & Hl & Hn).
+        apply N.eqb_eq in E5. subst d.
+        (* the search starts at the second slash, which is not a line break *)
+        destruct (skipTo1_found text cLF k3 (cSLASH :: p) q (conj Zk3 Ck3)) as (k4 & Hs4 & L4 & A4 & _).
+        { rewrite Ak3, Hr. reflexivity. }
+        { cbn [index1]. change (cSLASH =? cLF)%N with false. cbv iota. rewrite Hn. reflexivity. }
+        rewrite Hs4. split; [apply SE0|]. split; [reflexivity|]. split; [exact Hit|]. split; [exact L4|].
+        cbn [with_state with_cu cu]. rewrite A4, Hr, <- Hl. rewrite skipn_app, skipn_all, Nat.sub_diag. reflexivity.
+      - apply N.eqb_eq in E5. subst d.
+        rewrite skipTo1_notfound.
+        + apply ErrorfAt_failed; reflexivity.
+        + rewrite Ak3. cbn [index1]. change (cSLASH =? cLF)%N with false. cbv iota. rewrite Hi. reflexivity. }
+    destruct (d =? cSTAR)%N eqn:E6; [|exact HUQ].
+    apply N.eqb_eq in E6. subst d.
+    assert (Ha3 : after k3 = cSTAR :: r') by exact Ak3.
+    rewrite (next_cons k3 cSTAR r' Ha3).
+    pose proof (advance_live text cSTAR r' k3 1 Ha3 (conj Zk3 Ck3)) as L4.
+    destruct (advance_fields cSTAR r' k3 1 Ha3) as (_ & Fa4 & _).
+    set (k4 := advance cSTAR k3 1) in *.
+    destruct (find2 cSTAR cSLASH r') as [[p q]|] eqn:Hf.
+    - destruct (skipTo2_found text cSTAR cSLASH k4 p q L4) as (k5 & Hs5 & L5 & A5); [rewrite Fa4; exact Hf|].
+      rewrite Hs5. rewrite (next_cons k5 cSTAR (cSLASH :: q) A5).
+      pose proof (advance_live text cSTAR _ k5 1 A5 L5) as L6.
+      destruct (advance_fields cSTAR _ k5 1 A5) as (_ & Fa6 & _).
+      rewrite (next_cons _ cSLASH q Fa6).
+      destruct (advance_fields cSLASH q _ 1 Fa6) as (_ & Fa7 & _).
+      split; [apply SE0|]. split; [reflexivity|]. split; [exact Hit|].
+      split; [apply advance_live with (r := q); assumption|exact Fa7].
+    - rewrite skipTo2_notfound by (rewrite Fa4; exact Hf).
+      apply ErrorfAt_failed; reflexivity. }
+  destruct (c =? cPLUS)%N eqn:E7.
+  { destruct r as [|d r']; [cbn [hd] in Hc2'; subst c2; exact HUQ|]. cbn [hd] in Hc2'. subst c2. unfold quote.
+    destruct ((d =? cDQ) || (d =? cSQ))%N; [|exact HUQ].
+    split; [apply SE0|]. split; [reflexivity|]. split.
+    - destruct (emit_one text (with_cu l1 k3) TUnquoted SGround Hit) as (t & A & B). exists t. split; [exact A|].
+      cbn [with_cu cu] in B. rewrite Tk3 in B. exact B.
+    - split; [apply consume_live; split; assumption|exact Ak3]. }
+  split; [apply SE0|]. split; [reflexivity|]. split; [exact Hit|]. split; [split; assumption|]. split; assumption.
+Qed.
+
+Lemma is_delim_ends c : c <> EOFR -> is_delim c = ends_unquoted c.
+Proof.
+  intro H. apply N.eqb_neq in H. unfold is_delim, ends_unquoted, blank, quote, punct. rewrite H.
+  destruct (c =? cSP)%N, (c =? cCR)%N, (c =? cLF)%N, (c =? cTAB)%N, (c =? cSEMI)%N, (c =? cDQ)%N, (c =? cSQ)%N,
+    (c =? cLB)%N, (c =? cRB)%N; reflexivity.
+Qed.
+
+Lemma unquoted_loop_sim text : ~ In EOFR text -> forall s2 fuel l0 l p,
+  (length s2 < fuel)%nat -> same_errs l0 l -> items l = [] -> live text (cu l) -> after (cu l) = s2 -> tokrev (cu l) = p ->
+  let (u, s') := unquoted s2 in one_tok text l0 (unquoted_loop fuel l) TUnquoted (rev p ++ u) s'.
+Proof.
+  intros NE. induction s2 as [|c r IH]; intros fuel l0 l p Hf SE Hit [Z C] Ha Ht.
+  - destruct fuel as [|f]; [cbn in Hf; lia|]. cbn [unquoted_loop unquoted].
+    destruct (peek (cu l)) as [c k] eqn:Hp.
+    destruct (peek_spec text _ _ _ Z C Hp) as (Hc & SP & Zk & Ck & _).
+    rewrite Ha in Hc. cbn [hd] in Hc. subst c. change (is_delim EOFR) with true. cbv iota.
+    split; [exact SE|]. split; [reflexivity|]. split.
+    + destruct (emit_one text (with_cu l k) TUnquoted SGround Hit) as (t & A & B). exists t. split; [exact A|].
+      cbn [with_cu cu] in B. destruct SP as (_ & _ & St). rewrite St, Ht in B. rewrite app_nil_r. exact B.
+    + split; [apply consume_live; split; assumption|]. destruct SP as (_ & Sa & _). cbn [with_state emit emitText cu consume after with_cu].
+      rewrite Sa. exact Ha.
+  - destruct fuel as [|f]; [cbn in Hf; lia|]. cbn [unquoted_loop unquoted].
+    destruct (peek (cu l)) as [c' k] eqn:Hp.
+    destruct (peek_spec text _ _ _ Z C Hp) as (Hc & SP & Zk & Ck & _).
+    rewrite Ha in Hc. cbn [hd] in Hc. subst c'.
+    assert (Hne : c <> EOFR).
+    { intros ->. apply NE. unfold zip in Z. rewrite <- Z, Ha. apply in_or_app. right. left. reflexivity. }
+    rewrite (is_delim_ends c Hne). destruct (ends_unquoted c) eqn:Hd.
+    + split; [exact SE|]. split; [reflexivity|]. split.
+      * destruct (emit_one text (with_cu l k) TUnquoted SGround Hit) as (t & A & B). exists t. split; [exact A|].
+        cbn [with_cu cu] in B. destruct SP as (_ & _ & St). rewrite St, Ht in B. rewrite app_nil_r. exact B.
+      * split; [apply consume_live; split; assumption|]. destruct SP as (_ & Sa & _).
+        cbn [with_state emit emitText cu consume after with_cu]. rewrite Sa. exact Ha.
+    + assert (Hak : after k = c :: r) by (destruct SP as (_ & -> & _); exact Ha).
+      rewrite (next_cons k c r Hak).
+      destruct (advance_fields c r k 1 Hak) as (_ & Fa & Ft & _).
+      specialize (IH f l0 (with_cu l (advance c k 1)) (c :: p)).
+      destruct (unquoted r) as [u s'].
+      replace (rev p ++ c :: u) with (rev (c :: p) ++ u) by (cbn [rev]; rewrite <- app_assoc; reflexivity).
+      apply IH; auto.
+      * cbn [length] in Hf. lia.
+      * apply advance_live with (r := r); [exact Hak|split; assumption].
+      * cbn [with_cu cu]. rewrite Ft. destruct SP as (_ & _ & ->). rewrite Ht. reflexivity.
+Qed.
+
+(* ---- the double-quoted string: the state machine of lexQString as a reader of source items ---- *)
+Definition flat (its : list item) : str := concat (map raw_item its).
+Definition lit_ok (i : item) : Prop := match i with Lit c => c <> cDQ /\ c <> cBSL | Esc _ => True end.
+
+Lemma dq_items_flat_n n : forall s, (length s <= n)%nat -> forall its rest, dq_items s = Some (its, rest) ->
+  s = flat its ++ cDQ :: rest /\ Forall lit_ok its.
+Proof.
+  induction n as [|n IH]; intros s Hn its rest H; (destruct s as [|c r]; [discriminate|]); [cbn in Hn; lia|].
+  cbn [dq_items] in H. cbn [length] in Hn.
+  destruct (N.eqb_spec c cDQ) as [->|N1].
+  - injection H as <- <-. split; [reflexivity|constructor].
+  - destruct (N.eqb_spec c cBSL) as [->|N2].
+    + destruct r as [|d r']; [discriminate|].
+      destruct (dq_items r') as [[its' s']|] eqn:E; [|discriminate]. injection H as <- <-.
+      destruct (IH r' ltac:(cbn [length] in Hn; lia) _ _ E) as [-> F]. split; [reflexivity|constructor; [exact I|exact F]].
+    + destruct (dq_items r) as [[its' s']|] eqn:E; [|discriminate]. injection H as <- <-.
+      destruct (IH r ltac:(lia) _ _ E) as [-> F]. split; [reflexivity|constructor; [split; assumption|exact F]].
+Qed.
+Lemma dq_items_flat s its rest : dq_items s = Some (its, rest) -> s = flat its ++ cDQ :: rest /\ Forall lit_ok its.
+Proof. apply (dq_items_flat_n (length s)). lia. Qed.
+
+(* what lexQString does, told over the items: [ind] is the tab column just after the opening quote, [over]
+   says that the indentation of the current line is behind us, [col] is the tab column of the cursor (it
+   only matters while [over] is false), [accrev] the text so far, reversed.  None: undefined escape. *)
+Fixpoint acc_loop (pat : bool) (ind : Z) (over : bool) (col : Z) (accrev : str) (its : list item) : option str :=
+  match its with
+  | [] => Some (rev accrev)
+  | Lit c :: r =>
+      if (c =? cLF)%N then acc_loop pat ind false 0 (cLF :: trim_trailing_rev accrev) r
+      else if ((c =? cSP) || (c =? cTAB))%N then
+        let col' := if (c =? cTAB)%N then tab_stop col else col + 1 in
+        if negb over && (col' <=? ind) then acc_loop pat ind over col' accrev r
+        else acc_loop pat ind true col (c :: accrev) r
+      else acc_loop pat ind true col (c :: accrev) r
+  | Esc c :: r =>
+      match subst_item pat (Esc c) with
+      | Some u => acc_loop pat ind true col (rev u ++ accrev) r
+      | None => None
+      end
+  end.
+
+Lemma next_step text k c r : live text k -> after k = c :: r ->
+  next k = (c, advance c k 1) /\ live text (advance c k 1) /\ after (advance c k 1) = r /\
+  tcol (advance c k 1) = (if (c =? cLF)%N then 0 else if (c =? cTAB)%N then tab_stop (tcol k) else tcol k + 1).
+Proof.
+  intros L Ha. destruct (advance_fields c r k 1 Ha) as (_ & Fa & _ & _ & _ & _ & Ft).
+  split; [apply (next_cons k c r Ha)|]. split; [eapply advance_live; eauto|]. split; assumption.
+Qed.
+
+Lemma qstring_loop_sim text : ~ In EOFR text -> forall its fuel l0 l ind ql qc over col accrev rest t,
+  same_errs l0 l -> items l = [] -> live text (cu l) -> after (cu l) = flat its ++ cDQ :: rest -> Forall lit_ok its ->
+  (over = false -> tcol (cu l) = col) -> (length (after (cu l)) < fuel)%nat ->
+  acc_loop (inPattern l) ind over col accrev its = Some t ->
+  one_tok text l0 (qstring_loop fuel l ind ql qc over accrev) TString t rest.
+Proof.
+  intros NE. induction its as [|i its IH]; intros fuel l0 l ind ql qc over col accrev rest t SE Hit L Ha Hok Hcol Hf Hacc.
+  - destruct fuel as [|f]; [lia|]. cbn [flat map concat app] in Ha. cbn [qstring_loop].
+    destruct (next_step text (cu l) cDQ rest L Ha) as (Hn & L1 & A1 & _). rewrite Hn.
+    change (cDQ =? EOFR)%N with false. rewrite N.eqb_refl. cbv iota.
+    cbn [acc_loop] in Hacc. injection Hacc as <-.
+    split; [exact SE|]. split; [reflexivity|]. split; [apply (emitText_one (with_cu l _) TString _ SGround Hit)|].
+    split; [apply consume_live; exact L1|exact A1].
+  - destruct fuel as [|f]; [lia|]. inversion Hok as [|? ? Hi Hok']; subst.
+    assert (InA : forall x, In x (after (cu l)) -> x <> EOFR).
+    { intros x Hx ->. apply NE. destruct L as [Z _]. unfold zip in Z. rewrite <- Z. apply in_or_app. right. exact Hx. }
+    destruct i as [c|c].
+    + (* a character standing for itself *)
+      cbn [flat map concat raw_item app] in Ha. fold (flat its) in Ha.
+      destruct (next_step text (cu l) c _ L Ha) as (Hn & L1 & A1 & T1).
+      cbn [qstring_loop]. rewrite Hn.
+      assert (E0 : (c =? EOFR)%N = false) by (apply N.eqb_neq; apply InA; rewrite Ha; left; reflexivity).
+      destruct Hi as [N1 N2]. apply N.eqb_neq in N1, N2. rewrite E0, N1.
+      set (l1 := with_cu l (advance c (cu l) 1)).
+      assert (Hf1 : (length (after (cu l1)) < f)%nat).
+      { cbn [l1 with_cu cu]. rewrite A1. rewrite Ha in Hf. cbn [length app] in Hf. lia. }
+      cbn [acc_loop] in Hacc.
+      destruct (c =? cLF)%N eqn:E1.
+      * pose proof (proj1 (N.eqb_eq _ _) E1) as Ec. rewrite Ec.
+        apply (IH f l0 l1 ind ql qc false 0 _ rest t SE Hit L1 A1 Hok'); auto.
+      * destruct ((c =? cSP) || (c =? cTAB))%N eqn:E2.
+        -- cbn [l1 with_cu cu] in *. rewrite T1.
+           set (col' := if (c =? cTAB)%N then tab_stop col else col + 1) in *.
+           assert (Hc' : over = false -> (if (c =? cTAB)%N then tab_stop (tcol (cu l)) else tcol (cu l) + 1) = col').
+           { intro Ho. rewrite (Hcol Ho). reflexivity. }
+           destruct over.
+           ++ cbn [negb andb] in *. apply (IH f l0 l1 ind ql qc true col _ rest t SE Hit L1 A1 Hok'); auto. discriminate.
+           ++ cbn [negb andb] in *. rewrite (Hc' eq_refl).
+              destruct (col' <=? ind).
+              ** apply (IH f l0 l1 ind ql qc false col' _ rest t SE Hit L1 A1 Hok'); auto.
+                 intros _. cbn [l1 with_cu cu]. rewrite T1. apply Hc'. reflexivity.
+              ** apply (IH f l0 l1 ind ql qc true col _ rest t SE Hit L1 A1 Hok'); auto. discriminate.
+        -- rewrite N2. apply (IH f l0 l1 ind ql qc true col _ rest t SE Hit L1 A1 Hok'); auto. discriminate.
+    + (* an escape *)
+      cbn [flat map concat raw_item app] in Ha. fold (flat its) in Ha.
+      destruct (next_step text (cu l) cBSL _ L Ha) as (Hn & L1 & A1 & _).
+      destruct (next_step text _ c _ L1 A1) as (Hn2 & L2 & A2 & _).
+      cbn [qstring_loop]. rewrite Hn.
+      change (cBSL =? EOFR)%N with false. change (cBSL =? cDQ)%N with false. change (cBSL =? cLF)%N with false.
+      change ((cBSL =? cSP) || (cBSL =? cTAB))%N with false. rewrite N.eqb_refl. cbv iota.
+      rewrite Hn2.
+      set (l2 := with_cu (with_cu l (advance cBSL (cu l) 1)) (advance c (advance cBSL (cu l) 1) 1)).
+      assert (Hf2 : (length (after (cu l2)) < f)%nat).
+      { cbn [l2 with_cu cu]. rewrite A2. rewrite Ha in Hf. cbn [length app] in Hf. lia. }
+      assert (E0 : c <> EOFR) by (apply InA; rewrite Ha; right; left; reflexivity).
+      cbn [acc_loop subst_item] in Hacc.
+      destruct (c =? c_n)%N; [apply (IH f l0 l2 ind ql qc true col _ rest t SE Hit L2 A2 Hok'); auto; discriminate|].
+      destruct (c =? c_t)%N; [apply (IH f l0 l2 ind ql qc true col _ rest t SE Hit L2 A2 Hok'); auto; discriminate|].
+      destruct (c =? cDQ)%N; [apply (IH f l0 l2 ind ql qc true col _ rest t SE Hit L2 A2 Hok'); auto; discriminate|].
+      destruct (c =? cBSL)%N; [apply (IH f l0 l2 ind ql qc true col _ rest t SE Hit L2 A2 Hok'); auto; discriminate|].
+      change (inPattern l2) with (inPattern l).
+      destruct (inPattern l) eqn:Hpat; [|discriminate].
+      unfold rune_text. apply N.eqb_neq in E0. rewrite E0.
+      apply (IH f l0 l2 ind ql qc true col _ rest t SE Hit L2 A2 Hok'); auto; [discriminate|].
+      change (inPattern l2) with (inPattern l). rewrite Hpat. exact Hacc.
+Qed.
+
+(* ---- the accumulator reader computes the line-wise reference string ---- *)
+Definition blankc (c : rune) : bool := ((c =? cSP) || (c =? cTAB))%N.
+Definition nobreak (i : item) : Prop := is_break i = false.
+Definition headok (a : str) : Prop := match a with [] => True | c :: _ => blankc c = false end.
+
+Fixpoint unlines (ls : list (list item)) : list item :=
+  match ls with
+  | [] => []
+  | [l] => l
+  | l :: rest => l ++ Lit cLF :: unlines rest
+  end.
+
+Lemma unlines_cons l m ms : unlines (l :: m :: ms) = l ++ Lit cLF :: unlines (m :: ms).
+Proof. reflexivity. Qed.
+
+Lemma lines_spec its : lines its <> [] /\ Forall (Forall nobreak) (lines its) /\ unlines (lines its) = its.
+Proof.
+  induction its as [|i r (N & F & U)]; [cbn; repeat split; [discriminate|repeat constructor]|].
+  cbn [lines]. destruct (lines r) as [|l ls] eqn:E; [contradiction|]. destruct (is_break i) eqn:Hb.
+  - split; [discriminate|]. split; [constructor; [constructor|exact F]|].
+    rewrite unlines_cons, U. destruct i as [c|c]; [|discriminate]. cbn in Hb. apply N.eqb_eq in Hb. subst c. reflexivity.
+  - split; [discriminate|]. apply Forall_cons_iff in F. destruct F as [F1 F2].
+    split; [constructor; [constructor; assumption|assumption]|].
+    destruct ls as [|m ms]; [cbn [unlines] in *; rewrite U; reflexivity|].
+    rewrite unlines_cons in *. cbn [app]. rewrite U. reflexivity.
+Qed.
+
+(* the leading blanks lexQString skips on a continuation line *)
+Fixpoint go_lead (ind col : Z) (l : list item) : list item :=
+  match l with
+  | Lit c :: r =>
+      if blankc c then
+        let col' := if (c =? cTAB)%N then tab_stop col else col + 1 in
+        if col' <=? ind then go_lead ind col' r else l
+      else l
+  | _ => l
+  end.
+
+Lemma acc_col_irrelevant pat ind its : forall c1 c2 a,
+  acc_loop pat ind true c1 a its = acc_loop pat ind true c2 a its.
+Proof.
+  induction its as [|i r IH]; intros c1 c2 a; [reflexivity|]. destruct i as [c|c]; cbn [acc_loop].
+  - destruct (c =? cLF)%N; [reflexivity|]. destruct ((c =? cSP) || (c =? cTAB))%N; cbn [negb andb]; apply IH.
+  - destruct (subst_item pat (Esc c)); [apply IH|reflexivity].
+Qed.
+
+Lemma subst_line_app pat a b : subst_line pat (a ++ b) =
+  match subst_line pat a, subst_line pat b with Some x, Some y => Some (x ++ y) | _, _ => None end.
+Proof.
+  induction a as [|i a IH]; cbn [app subst_line]; [destruct (subst_line pat b); reflexivity|].
+  rewrite IH. destruct (subst_item pat i); [|reflexivity].
+  destruct (subst_line pat a); [|reflexivity]. destruct (subst_line pat b); [rewrite app_assoc|]; reflexivity.
+Qed.
+
+(* past the indentation, a line is appended item by item *)
+Lemma acc_line_true pat ind : forall l rest col a, Forall nobreak l ->
+  acc_loop pat ind true col a (l ++ rest) =
+  match subst_line pat l with Some u => acc_loop pat ind true col (rev u ++ a) rest | None => None end.
+Proof.
+  induction l as [|i l IH]; intros rest col a F; [reflexivity|]. inversion F as [|? ? Hi F']; subst.
+  cbn [app]. destruct i as [c|c].
+  - unfold nobreak in Hi. cbn in Hi. cbn [acc_loop]. rewrite Hi.
+    replace (if ((c =? cSP) || (c =? cTAB))%N then (if negb true && _ then _ else _) else _)
+      with (acc_loop pat ind true col (c :: a) (l ++ rest)) by (destruct ((c =? cSP) || (c =? cTAB))%N; reflexivity).
+    rewrite IH by exact F'. cbn [subst_line subst_item]. destruct (subst_line pat l) as [u|]; [|reflexivity].
+    cbn [app rev]. rewrite <- app_assoc. reflexivity.
+  - cbn [acc_loop subst_line]. destruct (subst_item pat (Esc c)) as [u0|]; [|reflexivity].
+    rewrite IH by exact F'. destruct (subst_line pat l) as [u|]; [|reflexivity].
+    rewrite rev_app_distr, <- app_assoc. reflexivity.
+Qed.
+
+Definition at_break (rest : list item) : Prop := rest = [] \/ exists r, rest = Lit cLF :: r.
+
+Lemma acc_at_break pat ind o1 c1 o2 c2 a rest : at_break rest ->
+  acc_loop pat ind o1 c1 a rest = acc_loop pat ind o2 c2 a rest.
+Proof. intros [->|[r ->]]; reflexivity. Qed.
+
+Lemma acc_line_lead pat ind : forall l rest col a, Forall nobreak l -> at_break rest ->
+  acc_loop pat ind false col a (l ++ rest) = acc_loop pat ind true col a (go_lead ind col l ++ rest).
+Proof.
+  induction l as [|i l IH]; intros rest col a F B; [apply acc_at_break; exact B|].
+  inversion F as [|? ? Hi F']; subst. destruct i as [c|c]; [|reflexivity].
+  unfold nobreak in Hi. cbn in Hi. cbn [go_lead]. unfold blankc.
+  destruct ((c =? cSP) || (c =? cTAB))%N eqn:Eb.
+  - destruct ((if (c =? cTAB)%N then tab_stop col else col + 1) <=? ind) eqn:El.
+    + cbn [app acc_loop]. rewrite Hi, Eb. cbn [negb andb]. rewrite El. rewrite IH by assumption.
+      apply acc_col_irrelevant.
+    + cbn [app acc_loop]. rewrite Hi, Eb. cbn [negb andb]. rewrite El. reflexivity.
+  - cbn [app acc_loop]. rewrite Hi, Eb. reflexivity.
+Qed.
+
+Lemma tab_stop_gt t : 0 <= t -> t < tab_stop t.
+Proof. intro H. apply tab_stop_pos. exact H. Qed.
+
+Lemma drop_leading_go q : forall l col l2, 0 <= col -> drop_leading q col l = Some l2 -> go_lead (q + 1) col l = l2.
+Proof.
+  induction l as [|i l IH]; intros col l2 Hc H; [injection H as <-; reflexivity|].
+  destruct i as [c|c]; [|injection H as <-; reflexivity]. cbn [drop_leading] in H. cbn [go_lead]. unfold blankc.
+  destruct (c =? cSP)%N eqn:E1.
+  - cbn [orb]. apply N.eqb_eq in E1. subst c. change (cSP =? cTAB)%N with false. cbv iota.
+    destruct (Z.leb_spec col q).
+    + destruct (Z.leb_spec (col + 1) (q + 1)); [|lia]. apply IH; [lia|exact H].
+    + destruct (Z.leb_spec (col + 1) (q + 1)); [lia|]. injection H as <-. reflexivity.
+  - cbn [orb]. destruct (c =? cTAB)%N eqn:E2; [|injection H as <-; reflexivity].
+    pose proof (tab_stop_gt col Hc).
+    destruct (Z.leb_spec col q).
+    + destruct (Z.leb_spec (tab_stop col) (q + 1)); [|discriminate]. apply IH; [lia|exact H].
+    + destruct (Z.leb_spec (tab_stop col) (q + 1)); [lia|]. injection H as <-. reflexivity.
+Qed.
+
+Lemma go_lead_suffix ind : forall l col, exists P, l = P ++ go_lead ind col l /\ Forall (fun i => is_lit_blank i = true) P.
+Proof.
+  induction l as [|i l IH]; intros col; [exists []; split; [reflexivity|constructor]|].
+  destruct i as [c|c]; [|exists []; split; [reflexivity|constructor]]. cbn [go_lead]. unfold blankc.
+  destruct ((c =? cSP) || (c =? cTAB))%N eqn:Eb; [|exists []; split; [reflexivity|constructor]].
+  destruct ((if (c =? cTAB)%N then tab_stop col else col + 1) <=? ind); [|exists []; split; [reflexivity|constructor]].
+  destruct (IH (if (c =? cTAB)%N then tab_stop col else col + 1)) as (P & E & F).
+  exists (Lit c :: P). split; [cbn [app]; rewrite <- E; reflexivity|constructor; [exact Eb|exact F]].
+Qed.
+
+Lemma go_lead_app ind T : forall l col, go_lead ind col l <> [] -> go_lead ind col (l ++ T) = go_lead ind col l ++ T.
+Proof.
+  induction l as [|i l IH]; intros col H; [contradiction|].
+  destruct i as [c|c]; [|reflexivity]. cbn [go_lead app] in *.
+  destruct (blankc c); [|reflexivity].
+  destruct ((if (c =? cTAB)%N then tab_stop col else col + 1) <=? ind); [apply IH; exact H|reflexivity].
+Qed.
+
+Lemma go_lead_last ind y : is_lit_blank y = false -> forall l0 col, exists l0', go_lead ind col (l0 ++ [y]) = l0' ++ [y].
+Proof.
+  intros Hy. induction l0 as [|i l0 IH]; intros col.
+  - exists []. cbn [app]. destruct y as [c|c]; [|reflexivity]. cbn [go_lead]. cbn in Hy. unfold blankc. rewrite Hy. reflexivity.
+  - destruct i as [c|c]; [|exists (Esc c :: l0); reflexivity]. cbn [app go_lead].
+    destruct (blankc c); [|exists (Lit c :: l0); reflexivity].
+    destruct ((if (c =? cTAB)%N then tab_stop col else col + 1) <=? ind); [apply IH|exists (Lit c :: l0); reflexivity].
+Qed.
+
+(* trailing blanks *)
+Lemma drop_blanks_split l : exists P, l = P ++ drop_blanks l /\ Forall (fun i => is_lit_blank i = true) P /\
+  match drop_blanks l with [] => True | y :: _ => is_lit_blank y = false end.
+Proof.
+  induction l as [|i l (P & E & F & H)]; [exists []; repeat split; constructor|].
+  cbn [drop_blanks]. destruct (is_lit_blank i) eqn:Eb.
+  - exists (i :: P). split; [cbn [app]; rewrite <- E; reflexivity|]. split; [constructor; assumption|exact H].
+  - exists []. split; [reflexivity|]. split; [constructor|exact Eb].
+Qed.
+
+Lemma strip_split l : exists T, l = strip_trailing l ++ T /\ Forall (fun i => is_lit_blank i = true) T /\
+  (strip_trailing l = [] \/ exists l0 y, strip_trailing l = l0 ++ [y] /\ is_lit_blank y = false).
+Proof.
+  unfold strip_trailing. destruct (drop_blanks_split (rev l)) as (P & E & F & H).
+  exists (rev P). split; [rewrite <- rev_app_distr, <- E, rev_involutive; reflexivity|]. split; [apply Forall_rev; exact F|].
+  destruct (drop_blanks (rev l)) as [|y d]; [left; reflexivity|right]. exists (rev d), y. split; [reflexivity|exact H].
+Qed.
+
+Lemma subst_blanks pat T : Forall (fun i => is_lit_blank i = true) T ->
+  exists u, subst_line pat T = Some u /\ forallb blankc u = true.
+Proof.
+  induction 1 as [|i T Hi F (u & E & B)]; [exists []; split; reflexivity|].
+  destruct i as [c|c]; [|discriminate]. exists (c :: u). cbn [subst_line subst_item]. rewrite E. split; [reflexivity|].
+  cbn [forallb]. rewrite B. cbn in Hi. unfold blankc. rewrite Hi. reflexivity.
+Qed.
+
+Lemma trim_blanks u : forallb blankc u = true -> forall a, trim_trailing_rev (rev u ++ a) = trim_trailing_rev a.
+Proof.
+  induction u as [|c u IH]; intros H a; [reflexivity|]. cbn [forallb] in H. apply andb_true_iff in H. destruct H as [Hc Hu].
+  cbn [rev]. rewrite <- app_assoc. rewrite IH by exact Hu. cbn [app trim_trailing_rev]. unfold blankc in Hc. rewrite Hc. reflexivity.
+Qed.
+Lemma trim_headok a : headok a -> trim_trailing_rev a = a.
+Proof. destruct a as [|c a]; [reflexivity|]. cbn [headok trim_trailing_rev]. unfold blankc. intros ->. reflexivity. Qed.
+
+Lemma subst_item_last pat y u : subst_item pat y = Some u -> is_lit_blank y = false -> esc_blank y = false ->
+  exists u0 c, u = u0 ++ [c] /\ blankc c = false.
+Proof.
+  destruct y as [c|c]; cbn [subst_item is_lit_blank esc_blank]; intros H Hb He.
+  - injection H as <-. exists [], c. split; [reflexivity|exact Hb].
+  - apply orb_false_iff in He. destruct He as [He E3]. apply orb_false_iff in He. destruct He as [E1 E2].
+    destruct (c =? c_n)%N; [injection H as <-; exists [], cLF; split; reflexivity|].
+    rewrite E1 in H.
+    destruct (c =? cDQ)%N; [injection H as <-; exists [], cDQ; split; reflexivity|].
+    destruct (c =? cBSL)%N; [injection H as <-; exists [], cBSL; split; reflexivity|].
+    destruct pat; [|discriminate]. injection H as <-. exists [cBSL], c. split; [reflexivity|]. unfold blankc. rewrite E2, E3. reflexivity.
+Qed.
+
+(* one source line that is followed by a line break: what the state machine has accumulated when it has
+   trimmed at the break is what the reference makes of the line *)
+Definition spec_lead (q : Z) (first : bool) (l : list item) : option (list item) :=
+  if first then Some l else drop_leading q 0 l.
+Definition go_line (q : Z) (first : bool) (l : list item) : list item :=
+  if first then l else go_lead (q + 1) 0 l.
+
+Lemma spec_lead_go q first l l2 : spec_lead q first l = Some l2 -> go_line q first l = l2.
+Proof. destruct first; cbn; [intro H; injection H as <-; reflexivity|apply drop_leading_go; lia]. Qed.
+
+Lemma line_trim pat q first l l2 u2 a : headok a -> ends_in_esc_blank l = false ->
+  spec_lead q first (strip_trailing l) = Some l2 -> subst_line pat l2 = Some u2 ->
+  exists u, subst_line pat (go_line q first l) = Some u /\ trim_trailing_rev (rev u ++ a) = rev u2 ++ a.
+Proof.
+  intros Ha Hesc Hl Hs. destruct (strip_split l) as (T & El & FT & Hcase).
+  destruct (subst_blanks pat T FT) as (uT & EuT & BT).
+  pose proof (spec_lead_go _ _ _ _ Hl) as Hg.
+  destruct Hcase as [Hnil|(l0 & y & Ey & Hy)].
+  - (* the line is blank *)
+    rewrite Hnil in *. cbn [app] in El. subst l.
+    assert (E2n : l2 = []) by (destruct first; cbn in Hl; injection Hl as <-; reflexivity). rewrite E2n in *. clear Hg.
+    cbn in Hs. injection Hs as <-.
+    assert (exists P, T = P ++ go_line q first T /\ Forall (fun i => is_lit_blank i = true) P) as (P & EP & _).
+    { destruct first; [exists []; split; [reflexivity|constructor]|apply go_lead_suffix]. }
+    assert (FG : Forall (fun i => is_lit_blank i = true) (go_line q first T)).
+    { rewrite EP in FT. apply Forall_app in FT. apply FT. }
+    destruct (subst_blanks pat _ FG) as (u & Eu & Bu). exists u. split; [exact Eu|].
+    rewrite trim_blanks by exact Bu. apply trim_headok. exact Ha.
+  - (* the line has a last non-blank item y *)
+    assert (Hgl : go_line q first l = l2 ++ T).
+    { rewrite El at 1. destruct first; cbn [go_line] in *; [rewrite Hg; reflexivity|].
+      rewrite go_lead_app; [rewrite Hg; reflexivity|]. rewrite Ey.
+      destruct (go_lead_last (q + 1) y Hy l0 0) as (l0' & ->). destruct l0'; discriminate. }
+    assert (exists l2', l2 = l2' ++ [y]) as (l2' & E2).
+    { rewrite <- Hg, Ey. destruct first; cbn [go_line]; [exists l0; reflexivity|apply go_lead_last; exact Hy]. }
+    rewrite Hgl, subst_line_app, Hs, EuT. exists (u2 ++ uT). split; [reflexivity|].
+    rewrite rev_app_distr, <- app_assoc, trim_blanks by exact BT.
+    rewrite E2, subst_line_app in Hs. destruct (subst_line pat l2') as [u0|]; [|discriminate].
+    cbn [subst_line] in Hs. destruct (subst_item pat y) as [uy|] eqn:Euy; [|discriminate]. injection Hs as <-.
+    assert (Hey : esc_blank y = false).
+    { unfold ends_in_esc_blank in Hesc. rewrite Ey, rev_app_distr in Hesc. exact Hesc. }
+    destruct (subst_item_last pat y uy Euy Hy Hey) as (u1 & c & -> & Hc).
+    rewrite app_nil_r. rewrite !rev_app_distr. cbn [rev app]. cbn [trim_trailing_rev]. unfold blankc in Hc. rewrite Hc. reflexivity.
+Qed.
+
+Lemma layout_length q : forall ls first ls', layout q first ls = Some ls' -> length ls' = length ls.
+Proof.
+  induction ls as [|l rest IH]; intros first ls' H; cbn [layout] in H; [injection H as <-; reflexivity|].
+  destruct (if first then _ else _) as [l2|]; [|discriminate].
+  destruct (layout q false rest) as [r|] eqn:E; [|discriminate]. injection H as <-. cbn [length]. f_equal. eapply IH; eauto.
+Qed.
+
+Lemma layout_cons2 q first l m ms : layout q first (l :: m :: ms) =
+  match spec_lead q first (strip_trailing l), layout q false (m :: ms) with
+  | Some l2, Some r => Some (l2 :: r) | _, _ => None end.
+Proof. reflexivity. Qed.
+Lemma layout_last q first l : layout q first [l] =
+  match spec_lead q first l with Some l2 => Some [l2] | None => None end.
+Proof. cbn [layout]. unfold spec_lead. destruct (if first then Some l else drop_leading q 0 l); reflexivity. Qed.
+Lemma join_lines_cons2 pat l m ms : join_lines pat (l :: m :: ms) =
+  match subst_line pat l, join_lines pat (m :: ms) with Some a, Some b => Some (a ++ cLF :: b) | _, _ => None end.
+Proof. reflexivity. Qed.
+Lemma no_esc_cons2 l m ms : no_esc_blank_before_break (l :: m :: ms) =
+  negb (ends_in_esc_blank l) && no_esc_blank_before_break (m :: ms).
+Proof. reflexivity. Qed.
+
+Lemma acc_lines pat q : forall ls first A ls' t,
+  ls <> [] -> Forall (Forall nobreak) ls -> headok A -> no_esc_blank_before_break ls = true ->
+  layout q first ls = Some ls' -> join_lines pat ls' = Some t ->
+  acc_loop pat (q + 1) first 0 A (unlines ls) = Some (rev A ++ t).
+Proof.
+  induction ls as [|l rest IH]; intros first A ls' t Hne F HA Hesc Hlay Hjoin; [contradiction|].
+  apply Forall_cons_iff in F. destruct F as [Fl Frest].
+  destruct rest as [|m ms].
+  - (* the last line: nothing is trimmed *)
+    rewrite layout_last in Hlay.
+    destruct (spec_lead q first l) as [l2|] eqn:El; [|discriminate]. injection Hlay as <-.
+    cbn [join_lines] in Hjoin. cbn [unlines].
+    pose proof (spec_lead_go _ _ _ _ El) as Hg.
+    assert (E : acc_loop pat (q + 1) first 0 A l = acc_loop pat (q + 1) true 0 A (l2 ++ [])).
+    { destruct first; cbn [go_line] in Hg.
+      - subst l2. rewrite app_nil_r. reflexivity.
+      - rewrite <- (app_nil_r l) at 1. rewrite acc_line_lead; [rewrite Hg; reflexivity|exact Fl|left; reflexivity]. }
+    rewrite E. rewrite acc_line_true.
+    + rewrite Hjoin. cbn [acc_loop]. rewrite rev_app_distr, rev_involutive. reflexivity.
+    + (* l2 is a suffix of l *)
+      destruct first; cbn [go_line] in Hg; [subst l2; exact Fl|].
+      destruct (go_lead_suffix (q + 1) l 0) as (P & EP & _). rewrite Hg in EP. rewrite EP in Fl. apply Forall_app in Fl. apply Fl.
+  - (* a line followed by a line break *)
+    rewrite layout_cons2 in Hlay.
+    destruct (spec_lead q first (strip_trailing l)) as [l2|] eqn:El; [|discriminate].
+    destruct (layout q false (m :: ms)) as [rs|] eqn:Er; [|discriminate]. injection Hlay as <-.
+    pose proof (layout_length _ _ _ _ Er) as Hlen. destruct rs as [|r1 rs]; [discriminate|].
+    rewrite join_lines_cons2 in Hjoin. destruct (subst_line pat l2) as [a|] eqn:Ea; [|discriminate].
+    destruct (join_lines pat (r1 :: rs)) as [b|] eqn:Eb; [|discriminate]. injection Hjoin as <-.
+    rewrite no_esc_cons2 in Hesc. apply andb_true_iff in Hesc. destruct Hesc as [He1 He2].
+    apply negb_true_iff in He1.
+    destruct (line_trim pat q first l l2 a A HA He1 El Ea) as (u & Eu & Etrim).
+    rewrite unlines_cons.
+    assert (E : acc_loop pat (q + 1) first 0 A (l ++ Lit cLF :: unlines (m :: ms)) =
+                acc_loop pat (q + 1) true 0 A (go_line q first l ++ Lit cLF :: unlines (m :: ms))).
+    { destruct first; cbn [go_line]; [reflexivity|]. apply acc_line_lead; [exact Fl|right; eexists; reflexivity]. }
+    rewrite E, acc_line_true, Eu.
+    + cbn [acc_loop]. rewrite N.eqb_refl. rewrite Etrim.
+      rewrite (IH false (cLF :: rev a ++ A) (r1 :: rs) b); auto; [|discriminate|reflexivity].
+      cbn [rev]. rewrite rev_app_distr, rev_involutive, <- !app_assoc. reflexivity.
+    + destruct first; cbn [go_line]; [exact Fl|].
+      destruct (go_lead_suffix (q + 1) l 0) as (P & EP & _). rewrite EP in Fl. apply Forall_app in Fl. apply Fl.
+Qed.
+
+(* the reference double-quoted string is what the accumulator reader computes *)
+Lemma dquoted_acc pat q s t rest : dquoted pat q s = DOk t rest ->
+  exists its, dq_items s = Some (its, rest) /\ acc_loop pat (q + 1) true 0 [] its = Some t.
+Proof.
+  unfold dquoted. destruct (dq_items s) as [[its r]|] eqn:E; [|discriminate].
+  destruct (has_crlf _); [discriminate|]. destruct (pat && existsb esc_break its); [discriminate|].
+  destruct (no_esc_blank_before_break (lines its)) eqn:E3; [|discriminate]. cbn [negb].
+  destruct (layout q true (lines its)) as [ls|] eqn:E4; [|discriminate].
+  destruct (join_lines pat ls) as [t'|] eqn:E5; [|discriminate]. intro H. injection H as <- <-.
+  exists its. split; [reflexivity|].
+  destruct (lines_spec its) as (N & F & U).
+  rewrite <- U at 1. rewrite (acc_lines pat q (lines its) true [] ls t' N F I E3 E4 E5). reflexivity.
+Qed.
+
+Lemma lexQString_sim text l0 l s1 r t rest : ~ In EOFR text -> in_dq text l0 l s1 r ->
+  dquoted (inPattern l) (column_of text s1) r = DOk t rest ->
+  one_tok text l0 (lexQString l) TString t rest.
+Proof.
+  intros NE (SE & _ & Hit & Z & X & Ha & Htc) Hd.
+  destruct (dquoted_acc _ _ _ _ _ Hd) as (its & Ei & Hacc).
+  destruct (dq_items_flat _ _ _ Ei) as [Er Hok].
+  unfold lexQString. rewrite Htc.
+  apply (qstring_loop_sim text NE its _ l0 l _ _ _ true 0 [] rest t); auto.
+  - split; [exact Z|left; exact X].
+  - rewrite Ha. exact Er.
+  - discriminate.
+Qed.
+
+Lemma same_errs_trans a b c : same_errs a b -> same_errs b c -> same_errs a c.
+Proof. intros (A1 & A2 & A3) (B1 & B2 & B3). split; [|split]; congruence. Qed.
+
+(* ---- a text that ends in a line break ---- *)
+Definition lf_term (t : str) : Prop := t = [] \/ exists t0, t = t0 ++ [cLF].
+
+Lemma index1_in c s : In c s -> index1 c s <> None.
+Proof.
+  induction s as [|x s IH]; [contradiction|]. cbn [index1 In]. destruct (N.eqb_spec x c); [discriminate|].
+  intros [H|H]; [contradiction|]. destruct (index1 c s); [discriminate|]. exfalso. apply IH; [exact H|reflexivity].
+Qed.
+
+Lemma line_comment_closed text pre r : text = pre ++ cSLASH :: cSLASH :: r -> lf_term text -> index1 cLF r <> None.
+Proof.
+  intros E [->|[t0 Et]]; [destruct pre; discriminate|].
+  induction r as [|x r0 _] using rev_ind.
+  - rewrite E in Et.
+    replace (pre ++ [cSLASH; cSLASH]) with ((pre ++ [cSLASH]) ++ [cSLASH]) in Et by (rewrite <- app_assoc; reflexivity).
+    apply app_inj_tail in Et. destruct Et as [_ Q]. vm_compute in Q. discriminate Q.
+  - rewrite E in Et.
+    replace (pre ++ cSLASH :: cSLASH :: r0 ++ [x]) with ((pre ++ cSLASH :: cSLASH :: r0) ++ [x]) in Et
+      by (rewrite <- app_assoc; reflexivity).
+    apply app_inj_tail in Et. destruct Et as [_ ->]. apply index1_in. apply in_or_app. right. left. reflexivity.
+Qed.
+
+Lemma dropb_suffix s : exists B, s = B ++ dropb s.
+Proof.
+  induction s as [|c r (B & E)]; [exists []; reflexivity|]. cbn [dropb]. destruct (is_blank c); [|exists []; reflexivity].
+  exists (c :: B). cbn [app]. rewrite <- E. reflexivity.
+Qed.
+Lemma dropb_length s : (length (dropb s) <= length s)%nat.
+Proof. destruct (dropb_suffix s) as (B & E). rewrite E at 2. rewrite app_length. lia. Qed.
+
+(* ---- NextToken returns the token the reference reader reads ---- *)
+Definition tok_matches (k : tok) (t : token) : Prop :=
+  match k with
+  | KUnq u => tokq TUnquoted u t
+  | KStr u => tokq TString u t
+  | KPunct c => tokq (TChar c) [c] t
+  | KEnd => False
+  end.
+
+Definition pop (l : lexer) (r : list token) : lexer :=
+  {| cu := cu l; sline := sline l; scol := scol l; soff := soff l; inPattern := inPattern l;
+     items := r; errcnt := errcnt l; errs := errs l; state := state l |}.
+
+Lemma NextToken_pop fuel l t r : items l = t :: r -> NextToken fuel l = (Some (Some t), pop l r).
+Proof. intro H. destruct fuel; cbn [NextToken]; rewrite H; reflexivity. Qed.
+Lemma NextToken_run f l : items l = [] -> state l <> SDone -> NextToken (S f) l = NextToken f (run_state l).
+Proof. intros H N. cbn [NextToken]. rewrite H. destruct (state l); try reflexivity. contradiction. Qed.
+Lemma NextToken_done fuel l : items l = [] -> state l = SDone -> NextToken fuel l = (Some None, l).
+Proof. intros H N. destruct fuel; cbn [NextToken]; rewrite H, N; reflexivity. Qed.
+
+Lemma one_tok_pop text l l' c u s' fuel : one_tok text l l' c u s' ->
+  exists t l'', NextToken fuel l' = (Some (Some t), l'') /\ tokq c u t /\ same_errs l l'' /\ glex text l'' s'.
+Proof.
+  intros (SE & Hst & (t & Hit & Ht) & L & Ha). exists t, (pop l' []). split; [apply NextToken_pop; exact Hit|].
+  split; [exact Ht|]. split; [exact SE|]. split; [exact Hst|]. split; [reflexivity|]. split; [exact L|exact Ha].
+Qed.
+
+Lemma read_token_skip text pat s s2 : skip InGap s = skip InGap s2 -> read_token text pat s = read_token text pat s2.
+Proof. intro H. unfold read_token. rewrite H. reflexivity. Qed.
+
+Lemma unquoted_prefix c r : ends_unquoted c = false -> unquoted (c :: r) = let (u, s') := unquoted r in (c :: u, s').
+Proof. intro H. cbn [unquoted]. rewrite H. reflexivity. Qed.
+
+Definition tr_of (text : str) (l : lexer) (res : option (option token) * lexer) (r : tres) : Prop :=
+  match r with
+  | TOk KEnd _ => exists l', res = (Some None, l') /\ same_errs l l' /\ state l' = SDone /\ items l' = []
+  | TOk k s' => exists t l', res = (Some (Some t), l') /\ tok_matches k t /\ same_errs l l' /\ glex text l' s'
+  | _ => True
+  end.
+Definition token_result (text : str) (l : lexer) (fuel : nat) (r : tres) : Prop := tr_of text l (NextToken fuel l) r.
+
+Lemma NextToken_sim text : ~ In EOFR text -> lf_term text -> forall n s l fuel,
+  (length s <= n)%nat -> glex text l s -> (2 * length s + 4 <= fuel)%nat ->
+  token_result text l fuel (read_token text (inPattern l) s).
+Proof.
+  intros NE LT. induction n as [|n IH]; intros s l fuel Hn G Hf.
+  all: pose proof (lexGround_sim text l s NE G) as GR.
+  all: destruct G as (Hst & Hit & L & Ha).
+  all: destruct fuel as [|f]; [lia|].
+  all: unfold token_result.
+  all: rewrite (read_token_skip text _ s (dropb s) (skip_dropb s)).
+  all: rewrite (NextToken_run f l Hit ltac:(rewrite Hst; discriminate)).
+  all: unfold run_state; rewrite Hst.
+  all: pose proof (dropb_length s) as Hdl.
+  all: destruct (dropb_suffix s) as (B & EB).
+  all: assert (Htxt : text = (rev (before (cu l)) ++ B) ++ dropb s)
+         by (destruct L as [Z _]; unfold zip in Z; rewrite <- Z, Ha, <- app_assoc, <- EB; reflexivity).
+  all: set (l1 := lexGround l) in *.
+  all: destruct (dropb s) as [|c r] eqn:Hd.
+  1,3: (* end of text *)
+    destruct GR as (SE & Hs1 & Hi1); cbn; exists l1; split; [apply NextToken_done; assumption|auto].
+  1: destruct s; [discriminate|cbn in Hn; lia].
+  (* the text goes on with c *)
+  unfold ground_result in GR. unfold read_token.
+  assert (Hc_nb : blank c = false).
+  { assert (Q : dropb (dropb s) = dropb s).
+    { clear. induction s as [|x s IHs]; [reflexivity|]. cbn [dropb]. destruct (is_blank x) eqn:E; [exact IHs|]. cbn [dropb]. rewrite E. reflexivity. }
+    rewrite Hd in Q. cbn [dropb] in Q. rewrite blank_is_blank. destruct (is_blank c); [|reflexivity].
+    exfalso. pose proof (dropb_length r) as Q2. rewrite Q in Q2. cbn [length] in Q2. lia. }
+  cbn [skip]. rewrite Hc_nb.
+  destruct (punct c) eqn:Ep.
+  { assert (Hns : (c =? cSLASH)%N = false).
+    { unfold punct in Ep. destruct (N.eqb_spec c cSLASH) as [->|]; [discriminate Ep|reflexivity]. }
+    rewrite Hns. rewrite Ep.
+    destruct (one_tok_pop text l l1 _ _ _ f GR) as (t & l2 & A & B' & C & D). exists t, l2. auto. }
+  destruct (c =? cSQ)%N eqn:E2.
+  { apply N.eqb_eq in E2. subst c. change (cSQ =? cSLASH)%N with false. cbv iota. rewrite Ep. rewrite N.eqb_refl.
+    destruct (squoted r) as [[u s']|]; [|exact I].
+    destruct (one_tok_pop text l l1 _ _ _ f GR) as (t & l2 & A & B' & C & D). exists t, l2. auto. }
+  destruct (c =? cDQ)%N eqn:E3.
+  { apply N.eqb_eq in E3. subst c. change (cDQ =? cSLASH)%N with false. cbv iota. rewrite Ep, E2. rewrite N.eqb_refl.
+    destruct (dquoted (inPattern l) (column_of text (cDQ :: r)) r) as [u s'| |] eqn:Edq; try exact I.
+    destruct f as [|f]; [lia|].
+    pose proof GR as (SE & Hs1 & Hi1 & _).
+    rewrite (NextToken_run f l1 Hi1 ltac:(rewrite Hs1; discriminate)). unfold run_state. rewrite Hs1.
+    assert (Edq' : dquoted (inPattern l1) (column_of text (cDQ :: r)) r = DOk u s').
+    { destruct SE as (_ & _ & ->). exact Edq. }
+    pose proof (lexQString_sim text l l1 _ r u s' NE GR Edq') as OT.
+    destruct (one_tok_pop text l _ _ _ _ f OT) as (t & l2 & A & B' & C & D). exists t, l2. auto. }
+  (* the token is unquoted, or this is a comment *)
+  assert (Hunq : forall p s2 l2 f2, (length s2 < f2)%nat -> in_unq text l l2 p s2 ->
+            let (u, s') := unquoted s2 in
+            exists t l3, NextToken f2 l2 = (Some (Some t), l3) /\ tokq TUnquoted (rev p ++ u) t /\ same_errs l l3 /\ glex text l3 s').
+  { intros p s2 l2 f2 Hf2 (SE & Hs2 & Hi2 & L2 & A2 & T2). destruct f2 as [|f2]; [lia|].
+    rewrite (NextToken_run f2 l2 Hi2 ltac:(rewrite Hs2; discriminate)). unfold run_state. rewrite Hs2. unfold lexUnquoted.
+    pose proof (unquoted_loop_sim text NE s2 (S (length (after (cu l2)))) l l2 p ltac:(rewrite A2; lia) SE Hi2 L2 A2 T2) as OT.
+    destruct (unquoted s2) as [u s']. apply (one_tok_pop text l _ _ _ _ f2 OT). }
+  assert (Eu : ends_unquoted c = false).
+  { unfold ends_unquoted, quote. rewrite Hc_nb, Ep, E2, E3. reflexivity. }
+  assert (Hlen : (length r < f)%nat) by (cbn [length] in Hdl; lia).
+  destruct (c =? cSLASH)%N eqn:E4.
+  { apply N.eqb_eq in E4. subst c.
+    destruct r as [|d r'].
+    - rewrite Ep. change (cSLASH =? cSQ)%N with false. change (cSLASH =? cDQ)%N with false. cbv iota.
+      specialize (Hunq [cSLASH] [] l1 f Hlen GR). cbn [unquoted] in *. rewrite Eu. cbn [unquoted tl opener_in].
+      destruct Hunq as (t & l3 & A & B' & C & D). exists t, l3. auto.
+    - destruct (d =? cSLASH)%N eqn:E5.
+      { apply N.eqb_eq in E5. subst d. rewrite skip_line.
+        destruct (index1 cLF r') as [x|] eqn:Hi.
+        - fold (read_token text (inPattern l) (skipn x r')).
+          destruct GR as (SE & Hs1 & Hi1 & L1 & A1).
+          assert (G1 : glex text l1 (skipn x r')) by (split; [exact Hs1|split; [exact Hi1|split; assumption]]).
+          assert (Hlen2 : (length (skipn x r') <= length r')%nat) by (rewrite skipn_length; lia).
+          cbn [length] in *.
+          pose proof (IH (skipn x r') l1 f ltac:(lia) G1 ltac:(lia)) as R. unfold token_result in R.
+          pose proof SE as (S1 & S2 & S3). rewrite S3 in R.
+          destruct (read_token text (inPattern l) (skipn x r')) as [[u|u|c0|] s'| |]; try exact I; cbn [tr_of] in *.
+          all: try (destruct R as (t & l3 & A & B' & C & D); exists t, l3;
+                    split; [exact A|split; [exact B'|split; [exact (same_errs_trans _ _ _ SE C)|exact D]]]).
+          destruct R as (l3 & A & C & D); exists l3; split; [exact A|split; [exact (same_errs_trans _ _ _ SE C)|exact D]].
+        - exfalso. apply (line_comment_closed text _ r' Htxt LT). exact Hi. }
+      destruct (d =? cSTAR)%N eqn:E6.
+      { rewrite skip_block.
+        destruct (find2 cSTAR cSLASH r') as [[p q]|] eqn:Hfd; [|exact I].
+        fold (read_token text (inPattern l) q).
+        destruct GR as (SE & Hs1 & Hi1 & L1 & A1).
+        assert (G1 : glex text l1 q) by (split; [exact Hs1|split; [exact Hi1|split; assumption]]).
+        pose proof (index2_find2 cSTAR cSLASH r') as F2. rewrite Hfd in F2. destruct F2 as [_ Er'].
+        assert (Hlen2 : (length q + 2 <= length r')%nat) by (rewrite Er', app_length; cbn [length]; lia).
+        cbn [length] in *.
+        pose proof (IH q l1 f ltac:(lia) G1 ltac:(lia)) as R. unfold token_result in R.
+        pose proof SE as (S1 & S2 & S3). rewrite S3 in R.
+        destruct (read_token text (inPattern l) q) as [[u|u|c0|] s'| |]; try exact I; cbn [tr_of] in *.
+        all: try (destruct R as (t & l3 & A & B' & C & D); exists t, l3;
+                  split; [exact A|split; [exact B'|split; [exact (same_errs_trans _ _ _ SE C)|exact D]]]).
+        destruct R as (l3 & A & C & D); exists l3; split; [exact A|split; [exact (same_errs_trans _ _ _ SE C)|exact D]]. }
+      rewrite Ep. change (cSLASH =? cSQ)%N with false. change (cSLASH =? cDQ)%N with false. cbv iota.
+      specialize (Hunq [cSLASH] (d :: r') l1 f Hlen GR).
+      rewrite (unquoted_prefix cSLASH (d :: r') Eu). destruct (unquoted (d :: r')) as [u s'].
+      cbn [tl]. destruct (opener_in u); [exact I|].
+      destruct Hunq as (t & l3 & A & B' & C & D). exists t, l3. auto. }
+  rewrite Ep, E2, E3.
+  destruct (c =? cPLUS)%N eqn:E7.
+  { destruct r as [|d r'].
+    - specialize (Hunq [c] [] l1 f Hlen GR). cbn [unquoted] in *. rewrite Eu. cbn [unquoted tl opener_in].
+      destruct Hunq as (t & l3 & A & B' & C & D). exists t, l3. auto.
+    - destruct (quote d) eqn:Eq.
+      + cbn [unquoted]. rewrite Eu. cbn [unquoted]. unfold ends_unquoted at 1. rewrite Eq. rewrite orb_true_r. cbn [orb].
+        cbn [tl opener_in].
+        destruct (one_tok_pop text l l1 _ _ _ f GR) as (t & l2 & A & B' & C & D). exists t, l2. auto.
+      + specialize (Hunq [c] (d :: r') l1 f Hlen GR).
+        rewrite (unquoted_prefix c (d :: r') Eu). destruct (unquoted (d :: r')) as [u s'].
+        cbn [tl]. destruct (opener_in u); [exact I|].
+        destruct Hunq as (t & l3 & A & B' & C & D). exists t, l3. auto. }
+  assert (Hlen' : (length (c :: r) < f)%nat) by (cbn [length] in *; lia).
+  specialize (Hunq [] (c :: r) l1 f Hlen' GR).
+  destruct (unquoted (c :: r)) as [u s'].
+  destruct (opener_in (tl u)); [exact I|].
+  destruct Hunq as (t & l3 & A & B' & C & D). exists t, l3. auto.
 Qed.
